@@ -1156,14 +1156,26 @@ def check_C05(ck):
         name, lines, payload = first
         payload.update(property="C05", script=lines, seed=ck.seed)
         ck.violation(verif.write_replay("C05", name, payload), True)
+    # the bodies of hash_type_id (plain and checked) as translated from the header on this run (HashL.exec, driver
+    # --src) answer every lookup of the battery; compared with the compiled functions
+    src_out = verif.run_model(verif.inject_rng(scripts, impl_out), mode="--src")
+    src_bad = verif.compare(scripts, impl_out, src_out)
+    lookups = sum(1 for ls in src_out.values() for l in ls if l.startswith(("vptr ", "raised unknown_class")))
+    if src_bad and not nbad and not any(f_ for _, f_ in ck.violations):
+        name, i, a, b = src_bad[0][:4]
+        ck.violation(verif.write_replay("C05", "src-" + name, {
+            "property": "C05", "kind": "the body of hash_type_id as translated from the header on this run (HashL.exec) and the compiled function answer a lookup differently",
+            "script": dict(scripts)[name], "first_difference": {"line": i, "implementation": a, "translated_source": b}, "seed": ck.seed}), False)
     installs, failures, unknown_rejected, sizes = stats5["installs"], stats5["failures"], stats5["unknown_rejected"], stats5["sizes"]
-    ck.coverage = proof_coverage(ck, ["C05"], {
+    ck.coverage = proof_coverage(ck, ["C05", "C05src"], {
         "evaluations": len(scripts),
         "distinct_nontrivial": len({repr(meta[n_][3]) for n_ in meta if len(meta[n_][3][0]) >= 2}),
         "rule": "id sets by family (clustered pointers, strides, small integers, random 64-bit, high-bits-only, low-bits-only), sizes 0..%d, 1-4 updates "
                 "with classes removed and added in between, attempt budget lowered on a quarter of the updates; after each update the hash statics, "
                 "control table and v-table pointer vector are compared with the model, registered ids are looked up, unregistered ids are looked up "
                 "under the checked policy; non-trivial = distinct history whose first set has >= 2 ids" % maxsize,
+        "translated_source_of_hash_type_id": {"file": "lean/Yomm2/Generated/HashSrc.lean (tools/cpp2lean.py)", "lookups_answered_by_the_translated_source": lookups,
+                                              "differences_from_compiled_functions": len(src_bad), "translator_messages": getattr(ck.lean, "notes", [])},
         "hash_installs_checked_perfect": installs,
         "search_failures_reported": failures,
         "unknown_ids_rejected": unknown_rejected,
